@@ -169,7 +169,7 @@ func TestVerifDumpTables(t *testing.T) {
 
 def run_job(job, scratch, tables, timeout_s):
     name = job["harness"]
-    out = os.path.join(scratch, name + ".json")
+    out = os.path.join(scratch, name + job.get("tag", "") + ".json")
     cmd = [GOSYM, "-repo", REPO, "-pkg", "./" + job["pkg"], "-harness", HARNESS, "-func", "VerifHarness_" + name, "-out", out]
     if tables:
         cmd += ["-tables", tables]
@@ -324,7 +324,7 @@ def run(pid, spec, a, seed, scratch, t0):
     os.makedirs(os.path.join(VERIF, "replays", pid), exist_ok=True)
     for r in results:
         job = r["job"]
-        h = job["harness"]
+        h = job["harness"] + job.get("tag", "")
         bounds_run.append("%s: %s" % (h, job.get("bound", "")))
         if r.get("special") is not None:
             sp = r["special"]
@@ -398,14 +398,14 @@ def run(pid, spec, a, seed, scratch, t0):
                     continue
                 seen.add(key)
                 cpath = os.path.join(VERIF, "replays", pid, "%s-%d.json" % (h, len(seen)))
-                json.dump(dict(harness=h, label=c["label"], kind=c["kind"], model=c["model"], decisions=c["decisions"]), open(cpath, "w"), indent=1)
+                json.dump(dict(harness=job["harness"], label=c["label"], kind=c["kind"], model=c["model"], decisions=c["decisions"]), open(cpath, "w"), indent=1)
                 if job.get("replay") == "c20":
                     rr = props.replay_c20(dict(model=c["model"], label=c["label"]), scratch, REPO, GOENV)
                 else:
                     rr = native_replay(job, cpath, scratch)
                 replays += 1
                 if reproduced(c, rr):
-                    kf = match_known(known, pid, h, c["label"], rr)
+                    kf = match_known(known, pid, job["harness"], c["label"], rr)
                     if kf:
                         known_hits.append((kf, h, c["label"]))
                     else:
